@@ -722,11 +722,13 @@ fn peer_table(w: &PeerWorld) -> Vec<(Vec<u64>, Vec<u64>)> {
 // ---------------------------------------------------------------------------------------------
 pub struct Streams {
     peers: PeerWorld,
+    /// `--sock-quic 1` (harness built with the quic feature): only socket cases over the real QuicTransport
+    only_quic: bool,
 }
 
 impl Streams {
-    pub fn new() -> Self {
-        Streams { peers: PeerWorld::new() }
+    pub fn new(only_quic: bool) -> Self {
+        Streams { peers: PeerWorld::new(), only_quic }
     }
 
     pub fn run_stored(&self, rt: &Runtime, c: &[u64]) -> (Vec<u64>, Vec<u64>) {
@@ -753,6 +755,9 @@ impl Streams {
 
     /// the deterministic tables emitted at the start of every run
     pub fn tables(&self) -> Vec<(Vec<u64>, Vec<u64>)> {
+        if self.only_quic {
+            return sock::table_quic();
+        }
         let mut v = limits_table();
         v.extend(peer_table(&self.peers));
         v.extend(sock::table());
@@ -761,9 +766,12 @@ impl Streams {
     }
 
     pub fn generated(&self, rt: &Runtime, rng: &mut Rng, thorough: bool, i: u64) -> (Vec<u64>, Vec<u64>) {
+        if self.only_quic {
+            return sock::generated(rng, true);
+        }
         // real sockets are slow (handshakes, 150 ms of watching every accepted connection)
         if i % (if thorough { 2000 } else { 250 }) == 77 {
-            return sock::generated(rng);
+            return sock::generated(rng, false);
         }
         // complete nodes are slower still
         if i % (if thorough { 4000 } else { 500 }) == 133 {
